@@ -72,7 +72,17 @@ def check(model: Model, run: Run) -> None:
                     consumers.append((fi, n))
     if consumers:
         fi, n = consumers[0]
-        run.ok('marker consumed in %s' % fi.qualname, '%s: if %s' % (fi.loc(n), norm(n.test)))
+        late = _announce_additions_after(model, fi, n)
+        if late:
+            run.violation(
+                fi.qualname,
+                'announce list extended after the treat-as-withdraw decision: %s' % norm(late[0])[:80],
+                fi.loc(late[0]),
+                'the marker is tested at %s, but routes are still added to the announce list afterwards (%s): those routes '
+                'of a malformed UPDATE stay announced' % (fi.loc(n), '; '.join('%s %s' % (fi.loc(x), norm(x)[:60]) for x in late)),
+            )
+        else:
+            run.ok('marker consumed in %s' % fi.qualname, '%s: if %s (no later addition to the announce list)' % (fi.loc(n), norm(n.test)))
     else:
         run.violation(
             PARSE,
@@ -174,6 +184,43 @@ def check(model: Model, run: Run) -> None:
     _r7_table(model, run, attrs)
 
 
+def _announce_additions_after(model: Model, fi, ifnode: ast.If) -> list[ast.AST]:
+    """Statements reachable after the consuming `if` that add to a list flowing into the announces."""
+    from ..cfg import CFG
+
+    names = set()
+    for st in ifnode.body:
+        for n in walk_no_nested(st):
+            if isinstance(n, ast.Assign):
+                for t in n.targets:
+                    if isinstance(t, ast.Name) and 'announce' in t.id.lower():
+                        names.add(t.id)
+            if isinstance(n, ast.Call) and isinstance(n.func, ast.Attribute) and n.func.attr == 'clear' and isinstance(n.func.value, ast.Name):
+                names.add(n.func.value.id)
+    if not names:
+        return []
+    cfg = CFG(fi.node)
+    start = cfg.node_of(ifnode)
+    if start is None:
+        return []
+    reach = cfg.reachable(start.id)
+    # the consuming branch itself is allowed to rebind the list
+    inside = {id(x) for st in ifnode.body for x in ast.walk(st)}
+    out = []
+    for nid in reach:
+        node = cfg.nodes[nid]
+        a = node.ast
+        if a is None or node.kind != 'stmt' or id(a) in inside or nid == start.id:
+            continue
+        for n in walk_no_nested(a):
+            if isinstance(n, ast.Call) and isinstance(n.func, ast.Attribute) and n.func.attr in ('append', 'extend', 'insert') and isinstance(n.func.value, ast.Name) and n.func.value.id in names:
+                out.append(n)
+            if isinstance(n, ast.AugAssign) and isinstance(n.target, ast.Name) and n.target.id in names:
+                out.append(n)
+    out.sort(key=lambda x: x.lineno)
+    return out
+
+
 def _branch_neutralises_announces(model: Model, fi, ifnode: ast.If) -> bool:
     """Under the marker test: a raise, or a rebinding / clearing of a name that flows into the announces."""
     for st in ifnode.body:
@@ -242,7 +289,28 @@ def _r2_length_guard(model: Model, run: Run, parse) -> None:
                 if has_len and has_l and (always_exits(n.body) or (n.orelse and always_exits(n.orelse))):
                     found = n
     if found is not None:
-        run.ok('parse: length guard', '%s: if %s' % (parse.loc(found), norm(found.test)))
+        # the guard must speak about the same value that is sliced: no rebinding of the buffer or of the length
+        # between the comparison and the slice
+        lo, hi = sorted((found.lineno, st.lineno))
+        rebinds = []
+        for n in walk_no_nested(fn):
+            if isinstance(n, (ast.Assign, ast.AugAssign, ast.AnnAssign)) and lo < n.lineno < hi:
+                tgts = n.targets if isinstance(n, ast.Assign) else [n.target]
+                for t in tgts:
+                    for x in ast.walk(t):
+                        if isinstance(x, ast.Name) and (x.id == bname or x.id in lnames) and isinstance(x.ctx, ast.Store):
+                            rebinds.append(n)
+        if rebinds and found.lineno < st.lineno:
+            run.violation(
+                parse.qualname,
+                'length guard and value slice see different buffers: %s' % norm(rebinds[0]),
+                parse.loc(rebinds[0]),
+                'the overrun test `%s` (%s) is evaluated before `%s` rebinds the buffer, so it compares the declared length '
+                'with a buffer that still contains the attribute header: an overrun of up to the header size passes and '
+                'the value is silently shortened by %s' % (norm(found.test), parse.loc(found), norm(rebinds[0]), norm(v)),
+            )
+        else:
+            run.ok('parse: length guard', '%s: if %s' % (parse.loc(found), norm(found.test)))
     else:
         run.violation(
             parse.qualname,
